@@ -79,6 +79,20 @@ func genTSSCase(rt *rapid.T, p tssProfile) tssCase {
 	}
 	c.Penalty = gen.OneOf(rt, "penalty", 1, 1, 1, 2, 10)
 	c.PoorUser = int64(gen.OneOf(rt, "poor", 0, 5, 20, 1000))
+	if gen.Chance(rt, "bigqueue", 1, 12) {
+		// long nonce queues: the default MaxDESize is 300; one or two members fill their queue beyond 256 entries
+		// (queue indexes and store keys wider than one byte), then signings consume from the head
+		c.MaxDE = 300
+		c.InitDE = gen.Range(rt, "biginit", 0, 8)
+		for _, m := range []int{0, gen.Uniform(rt, "bigm", n)} {
+			for j := 0; j < 3; j++ {
+				c.Ops = append(c.Ops, tssOp{K: "des", M: m, N: gen.OneOf(rt, "bign", 100, 100, 97, 99)})
+			}
+			c.Ops = append(c.Ops, tssOp{K: "end", N: 1})
+		}
+		c.Ops = append(c.Ops, tssOp{K: "desall", N: 2}, tssOp{K: "actall"}, tssOp{K: "end", N: 1},
+			tssOp{K: "req", M: 0, N: 4, Variant: "enough"}, tssOp{K: "end", N: 1}, tssOp{K: "sigall", S: 7, Mask: 0xff}, tssOp{K: "end", N: 1})
+	}
 	nops := rapid.IntRange(10, 60).Draw(rt, "nops")
 	for i := 0; i < nops; i++ {
 		if gen.Chance(rt, "scenario", 1, 8) {
@@ -971,6 +985,9 @@ func (w *tssWorld) observe(block []*builtTx, res *sim.BlockResult) bool {
 			if s == nil || s.status != tsstypes.SIGNING_STATUS_WAITING {
 				exp, why = false, "signing not waiting"
 			}
+			if b.known && exp && !ok && w.obs.c10 && !w.obs.c03 {
+				w.fail(true, "C10/good-share-refused", "signing %d: the correct share of assigned member %s was refused (code=%d log=%q): the attempt cannot complete and the member will be penalised as idle", b.sid, b.member, tr.Code, tr.Log)
+			}
 			if b.known && ok != exp {
 				w.fail(w.obs.c03, "C03/share-accept", "MsgSubmitSignature(signing %d, %s, variant %s) code=%d log=%q, reference expects accept=%v (%s)", b.sid, b.member, b.op.Variant, tr.Code, tr.Log, exp, why)
 			}
@@ -1284,6 +1301,9 @@ func (w *tssWorld) finish() {
 	}
 	if w.internalGov > 0 {
 		v.Class("internal-content-via-governance")
+	}
+	if w.c.MaxDE >= 256 {
+		v.Class("nonce-queue-beyond-256")
 	}
 	if w.attemptAboveMax {
 		v.Class("max-attempt-lowered-below-current-attempt")
